@@ -423,4 +423,11 @@ def check(run: Run) -> None:
     check_child_loops(run)
     from . import c05
     c05.check_prepass_protection(run, "R02.7")
+    from .. import bare, lexmodel
+
+    lm = lexmodel.build(run.project)
+    run.rule("R02.8", "a string value the emitter leaves unquoted is read back as that same string: bare ⊆ lexable (automata, shared with C01 R01.1 / C04 R04.3 / C09 R09.6), and a scanned identifier becomes exactly an IDENTIFIER token", 30)
+    bare.check_token_construction(run, "R02.8")
+    bare.check_bare(run, "R02.8", lm, run.project.mod("core.emitter"))
+    c05.check_prelex_text(run, "R02.9")
     run.assume("equality of the parsed content with an independent statement of what was written (parentage by indentation on concrete layouts, duplicate-key order, value equality) is not decided")
